@@ -584,10 +584,16 @@ type vf45Case struct {
 	Variant string `json:"variant"`
 	Layers  int    `json:"sign_layers"`
 	Peer    string `json:"peer"` // "", "trusted" (mutual TLS peer), "trusted-unsigned"
+	// Shape of the OPTIONAL request parts (everything the protocol lets a client leave out):
+	// "full" (version, TTL, epoch, maybe X-headers/tokens), "absent" (no meta header message at
+	// all), "empty" (present but all fields default), "bare-ttl" (only the TTL), "no-version",
+	// "xheaders" (many X-headers incl. system ones).  Put streams additionally
+	// "chunks-absent" / "chunks-empty": only the init message carries the full meta header.
+	Meta string `json:"meta"`
 }
 
 func (c vf45Case) sig() string {
-	return fmt.Sprintf("%s|%s|ttl%d|%s|%s|%s|l%d|%s", c.RPC, c.Scheme, min(c.TTL, 3), c.Version, c.Token, c.Variant, c.Layers, c.Peer)
+	return fmt.Sprintf("%s|%s|ttl%d|%s|%s|%s|l%d|%s|%s", c.RPC, c.Scheme, min(c.TTL, 3), c.Version, c.Token, c.Variant, c.Layers, c.Peer, c.Meta)
 }
 
 type vf45Client struct {
@@ -710,6 +716,37 @@ func vf45Meta(rng *rand.Rand, c *vf45Case, owner vf45Client, cnrID cid.ID, objID
 		}
 		m.BearerToken = t.ProtoMessage()
 	}
+	return vf45ShapeMeta(rng, c.Meta, m)
+}
+
+// Shapes of the optional request parts, see vf45Case.Meta.  The order matters: index 0 is
+// the full shape.
+var vf45MetaShapes = []string{"full", "full", "full", "full", "full", "full", "full", "absent", "absent", "empty", "bare-ttl", "no-version", "xheaders", "chunks-absent", "chunks-empty"}
+
+// vf45ShapeMeta leaves out the parts of a fully populated meta header that the shape says the
+// client did not send.  Whether the node accepts such a request at all is decided by the
+// positive control, not here.
+func vf45ShapeMeta(rng *rand.Rand, shape string, m *protosession.RequestMetaHeader) *protosession.RequestMetaHeader {
+	switch shape {
+	case "absent":
+		return nil
+	case "empty":
+		return &protosession.RequestMetaHeader{}
+	case "bare-ttl":
+		return &protosession.RequestMetaHeader{Ttl: m.Ttl}
+	case "no-version":
+		m.Version = nil
+	case "xheaders":
+		for i, n := 0, 2+rng.IntN(5); i < n; i++ {
+			m.XHeaders = append(m.XHeaders, &protosession.XHeader{Key: fmt.Sprintf("X-Vf-%d-%d", i, rng.IntN(99)), Value: fmt.Sprint(rng.IntN(99))})
+		}
+		if rng.IntN(4) == 0 { // the system X-headers of EC part requests
+			m.XHeaders = append(m.XHeaders, &protosession.XHeader{Key: iec.AttributeRuleIdx, Value: "0"})
+			if rng.IntN(2) == 0 {
+				m.XHeaders = append(m.XHeaders, &protosession.XHeader{Key: iec.AttributePartIdx, Value: fmt.Sprint(rng.IntN(3))})
+			}
+		}
+	}
 	return m
 }
 
@@ -769,6 +806,36 @@ func vf45Generate(r *verifkit.Run, idx int, rpcs []string) (*vf45Case, func(main
 		}
 	}
 	variantPick := pick.IntN(1 << 16)
+	// which of the optional request parts the client sends (drawn last: older dimensions keep
+	// their streams)
+	c.Meta = vf45MetaShapes[pick.IntN(len(vf45MetaShapes))]
+	if strings.HasPrefix(c.Meta, "chunks-") && c.RPC != "Put" {
+		c.Meta = strings.TrimPrefix(c.Meta, "chunks-") // single-message RPCs: the message itself
+	}
+	switch vf45Known[c.RPC] {
+	case "legacy":
+		c.Meta = "full" // not served at all, whatever they carry
+	case "node":
+		c.Meta = "-" // Replicate requests have no meta header
+	}
+	switch c.Meta {
+	case "absent", "empty":
+		// nothing of the meta header reaches the node: the fields it would carry are defaults
+		c.TTL, c.Version, c.Token, c.Layers = 0, "-", "", 1
+		if c.Peer == "trusted-unsigned" {
+			c.Peer = "trusted" // the signature waiver is bound to TTL=1
+		}
+	case "bare-ttl":
+		c.Version, c.Token, c.Layers = "-", "", 1
+	case "no-version":
+		c.Version = "-"
+	case "chunks-absent", "chunks-empty":
+		// payload messages without TTL/origin chain: one signature layer, signature not waivable
+		c.Layers = 1
+		if c.Peer == "trusted-unsigned" {
+			c.Peer = "trusted"
+		}
+	}
 
 	run := func(maintenance bool) (w *vf45World, o vf45Outcome) {
 		// identical generator state for both worlds
@@ -973,9 +1040,18 @@ func vf45Generate(r *verifkit.Run, idx int, rpcs []string) (*vf45Case, func(main
 			mo := obj.ProtoMessage()
 			mk := func(part *protoobject.PutRequest_Body) *protoobject.PutRequest {
 				req := &protoobject.PutRequest{Body: part}
-				req.MetaHeader = vf45Meta(rng, c, owner, cnrID, oid.ID{}, session.VerbObjectPut, sessionv2.VerbObjectPut)
+				// per-message shape of the optional parts: "chunks-X" = the init message is fully
+				// populated, the payload messages carry shape X
+				mc := *c
+				if sh, ok := strings.CutPrefix(c.Meta, "chunks-"); ok {
+					mc.Meta = "full"
+					if part.GetInit() == nil {
+						mc.Meta = sh
+					}
+				}
+				req.MetaHeader = vf45Meta(rng, &mc, owner, cnrID, oid.ID{}, session.VerbObjectPut, sessionv2.VerbObjectPut)
 				if c.Variant == "tombstone" {
-					req.MetaHeader = vf45Meta(rng, c, owner, cnrID, oid.ID{}, session.VerbObjectDelete, sessionv2.VerbObjectDelete)
+					req.MetaHeader = vf45Meta(rng, &mc, owner, cnrID, oid.ID{}, session.VerbObjectDelete, sessionv2.VerbObjectDelete)
 				}
 				if !unsigned {
 					if err := vf45SignLayers(req, owner.signer, extra, func(m *protosession.RequestMetaHeader) { req.MetaHeader = m }, func(v *protosession.RequestVerificationHeader) { req.VerifyHeader = v }); err != nil {
@@ -989,6 +1065,9 @@ func vf45Generate(r *verifkit.Run, idx int, rpcs []string) (*vf45Case, func(main
 				ObjectId: mo.ObjectId, Signature: mo.Signature, Header: mo.Header}}}))
 			for off := 0; off < len(payload); off += 2048 {
 				st.reqs = append(st.reqs, mk(&protoobject.PutRequest_Body{ObjectPart: &protoobject.PutRequest_Body_Chunk{Chunk: payload[off:min(off+2048, len(payload))]}}))
+			}
+			if len(st.reqs) == 1 && strings.HasPrefix(c.Meta, "chunks-") {
+				c.Meta = "full" // no payload message to shape
 			}
 			if (variantPick/16)%3 == 0 && len(st.reqs) > 1 {
 				// the node enters maintenance while the stream is open: from then on the
@@ -1156,7 +1235,7 @@ func vf45ReachedHandler(effects []string) bool {
 func TestVerif_C45(t *testing.T) {
 	r := verifkit.Start(t, "C45", "exploration")
 	defer r.Finish()
-	r.SetRule("RPC inventory by reflection over protoobject.ObjectServiceServer + service descriptor; per case one seeded valid request (RPC x signature scheme x TTL x API version x session/bearer token x body variant x signature layers x TLS-peer context); distinct = that tuple; non-trivial = the same request reached the storage/network dependency with maintenance off (positive control) and was then replayed with maintenance on")
+	r.SetRule("RPC inventory by reflection over protoobject.ObjectServiceServer + service descriptor; per case one seeded valid request (RPC x signature scheme x TTL x API version x session/bearer token x body variant x signature layers x TLS-peer context x shape of the optional request parts: meta header full/absent/empty/TTL-only/version-less/many X-headers, for Put also per message); distinct = that tuple; non-trivial = the same request reached the storage/network dependency with maintenance off (positive control) and was then replayed with maintenance on")
 	r.Assume("dependencies behind the Server interfaces are recording fakes (Handlers incl. real putsvc.Service over recording store/transport, Storage, ACL, clients); ACL/token verification is permissive because C45 quantifies over valid requests")
 	rpcs := vf45Inventory(r)
 	if len(rpcs) == 0 {
@@ -1186,6 +1265,7 @@ func TestVerif_C45(t *testing.T) {
 			if !vf45ReachedHandler(ctl.Effects) {
 				r.Count("control_not_accepted_"+c.RPC, 1)
 				r.Seen("control_rejections", fmt.Sprintf("%s %v %s", desc.sig(), ctl.Codes, ctl.GRPCErr))
+				r.Seen("control_rejected_rpc_x_meta_shape", c.RPC+"/"+desc.Meta)
 				if os.Getenv("VERIF_DEBUG") != "" {
 					t.Logf("control rejected: %s codes=%v msgs=%q grpc=%q panic=%q reads=%v", desc.sig(), ctl.Codes, ctl.Messages, ctl.GRPCErr, ctl.Panic, ctl.Reads)
 				}
@@ -1233,6 +1313,8 @@ func TestVerif_C45(t *testing.T) {
 			} else {
 				perRPCRefused[c.RPC]++
 				r.Count("refused_with_maintenance_status_"+c.RPC, 1)
+				r.Count("refused_by_meta_shape_"+desc.Meta, 1)
+				r.Seen("refused_rpc_x_meta_shape", c.RPC+"/"+desc.Meta)
 			}
 			r.Seen("maintenance_status_codes", fmt.Sprint(mo.Codes))
 			r.Distinct(desc.sig())
